@@ -174,6 +174,9 @@ PROPS["C02"] = {
          "quick": {"checks": 150, "shards": 10, "timeout": 300, "env": {"VERIF_C02_REPS": 3}},
          "thorough": {"checks": 2500, "shards": 12, "timeout": 1700, "env": {"VERIF_C02_REPS": 8}}},
         {"pkg": "verifx/c02", "run": "^TestC02Determinism$", "quick": {"skip": True},
+         "race_scope": r"aergo/v2/(chain|state|contract|types|fee|pkg/trie)[/.(]",
+         # verification-time statistics (a process-wide moving average and a hit counter used in a debug log line)
+         "race_ignore": r"types\.\(\*MovingAverage\)|types\.\(\*AvgTime\)|chain\.\(\*SignVerifier\)\.RequestVerifyTxs\.func2",
          "thorough": {"checks": 300, "shards": 4, "timeout": 1700, "race": True, "env": {"VERIF_C02_REPS": 4, "VERIF_GOMAXPROCS": 4}}},
     ],
 }
@@ -309,7 +312,7 @@ PROPS["C13"] = {
         {"pkg": "verifx/c13", "run": "^TestC13Pool$",
          "quick": {"checks": 120, "shards": 12, "timeout": 700},
          "thorough": {"checks": 2500, "shards": 16, "timeout": 1700}},
-        {"pkg": "verifx/c13", "run": "^TestC13Concurrent$",
+        {"pkg": "verifx/c13", "run": "^TestC13Concurrent$", "race_scope": r"aergo/v2/mempool\.",
          "quick": {"checks": 60, "shards": 4, "timeout": 700},
          "thorough": {"checks": 600, "shards": 8, "timeout": 1700, "race": True}},
     ],
